@@ -10,7 +10,7 @@ from vsa.facts import Facts, unwrap, show, walk, lit_value
 from vsa.front import AnalysisBroken
 from vsa.alg import Fold, S, F as Fn, guard_strs
 from vsa.cfg import CFG
-from vsa.cases import decide, executes, decision_table
+from vsa.cases import decide, executes, decision_table, resolve_ite
 
 LEVEL = "other"
 T = "votca::tools::"
@@ -126,7 +126,13 @@ def run(rep, tier):
                     ok, why = False, "cannot decide whether the label is written for start=%s, first visit=%s" % (st_, nw_)
                 elif x:
                     val = e["value"]
+                    if hasattr(val, "args"):
+                        val = resolve_ite(val, lambda cs: decide(conds[cs], None, A, cls3, conds) if cs in conds else None)
             if not ok:
+                break
+            wb = [s_ for s_ in setn if executes(s_, None, A, cls3, conds) is True]
+            if val is not None and not wb:
+                ok, why = False, "for start vertex=%s, first visit=%s the relabelled node is not written back with setNode" % (st_, nw_)
                 break
             if st_:
                 good = val == 0
@@ -142,12 +148,6 @@ def run(rep, tier):
         if ok:
             ok = executes(base[0], None, {}, cls3, conds) is True and not base[0]["guards"] and not base[0]["not"]
             why = "the vertex is not marked explored on every path"
-        if ok:
-            # the relabelled node is written back to the graph whenever the label was written
-            for e in dst:
-                same = [s_ for s_ in setn if s_["guards"] == e["guards"]]
-                if not same:
-                    ok, why = False, "a relabelled node is not written back with setNode under the same condition"
     rep.check(ok, "R16.3", "distance-label", "Dist = 0 at the start, Dist(previous end) + 1 on first visit, unchanged otherwise; always marked explored",
               "GraphDistVisitor::exploreNode: " + why, dv.loc(), sample=True)
 
